@@ -119,10 +119,10 @@ theorem removeTask_fail_view (pool : Pool) (k : Nat) (e : PyErr) (h : (pool.remo
   · rw [h] at hok; cases hok
   · exact hv
 
-theorem finishRemove_spec (n : Int) (ex : List SEvent) (t : TaskId) (time : Int) (e0 : SEvent)
+theorem finishRemove_rspec (n : Int) (ex : List SEvent) (t : TaskId) (time : Int) (e0 : SEvent)
     (he0 : e0 ∈ ex) (hty : e0.ev.etype = ET.taskFinished) (htid : e0.tid = some t) (htime : e0.ev.time = time) :
     KeepsR n ex (finishRemove t time) := by
-  mvcgen [finishRemove, getTask, getGraph, getPool, setPool, raiseOutcome, logE, taskCall, setGraph, raiseTask]
+  rmvcgen [finishRemove, getTask, getGraph, getPool, setPool, raiseOutcome, logE, taskCall, setGraph, raiseTask]
   all_goals first
     | ev_close
     | wk_close
@@ -143,13 +143,13 @@ theorem finishRemove_spec (n : Int) (ex : List SEvent) (t : TaskId) (time : Int)
 
 
 /-- TASK_FINISHED, for the popped event `ev` (kept in `ex` while it is handled). -/
-theorem handleTaskFinished_spec (n : Int) (ex : List SEvent) (ev : SEvent) (he : ev ∈ ex)
+theorem handleTaskFinished_rspec (n : Int) (ex : List SEvent) (ev : SEvent) (he : ev ∈ ex)
     (hty : ev.ev.etype = ET.taskFinished) : KeepsR n ex (handleTaskFinished ev) := by
   have h_fr : ∀ t time, ev.tid = some t → ev.ev.time = time → KeepsR n ex (finishRemove t time) :=
-    fun t time h1 h2 => finishRemove_spec n ex t time ev he hty h1 h2
-  have h_rows := finishRows_spec n ex
-  have h_not := finishNotify_spec n ex
-  mvcgen [handleTaskFinished, h_fr, h_rows, h_not]
+    fun t time h1 h2 => finishRemove_rspec n ex t time ev he hty h1 h2
+  have h_rows := finishRows_rspec n ex
+  have h_not := finishNotify_rspec n ex
+  rmvcgen [handleTaskFinished, h_fr, h_rows, h_not]
   all_goals first
     | ev_close
     | wk_close
